@@ -6,7 +6,7 @@
    lie in one NTP era k (Time64 comparison wraps at era boundaries), capacities
    are arbitrary positive numbers; [reachable] = reached from the empty store by
    such a history, together with the log of all replies and reports so far. *)
-From ST Require Import Base.Ints Model.NtpTime Model.Tss Model.TssOracle Proofs.TssProofs Proofs.TssInv Proofs.TssRun Proofs.TssOracleProofs.
+From ST Require Import Base.Ints Model.NtpTime Model.Tss Model.TssOracle Model.TssListenerOracle Proofs.TssProofs Proofs.TssInv Proofs.TssRun Proofs.TssOracleProofs Proofs.TssListenerProofs.
 From Coq Require Import ZArith List.
 Import ListNotations.
 Open Scope Z_scope.
@@ -120,6 +120,47 @@ Proof.
   exact (model_update_oracle k c s cid rxt txt HI E1 E2 E3).
 Qed.
 Print Assumptions C06_model_meets_update_oracle.
+
+(* ---- at the listeners ----
+   What a client sees on the wire (Model/TssListenerOracle.v): the listener-level
+   history of a run is the list, oldest first, of (client, request, reply origin /
+   receive / transmit stamp) of its replies; the store, the clock readings and the
+   transmit-timestamp reports are hidden.  For EVERY history run through the model
+   from the empty store (any mix of clients, any receive times and clock readings,
+   any transmit-timestamp reports in any order) the listener-level oracle that is
+   evaluated on the datagrams of the real IP and SCION listeners accepts the
+   projected history: a rejection on the real listeners is a violation of the
+   property by handleRequest/updateTXTimestamp or by the wiring around them
+   (client identity, which receive / transmit stamps are passed). *)
+Theorem C06_listener_oracle : forall k c ops s log,
+  0 < icap c -> 0 <= cap c -> Forall (op_in_era k c) ops ->
+  run_log c tss_empty [] ops = Some (s, log) ->
+  C06_lsn_ok (wire log) = true.
+Proof. intros k c ops s log Hi Hc. exact (listener_oracle_of_run k c Hi ops s log Hc). Qed.
+Print Assumptions C06_listener_oracle.
+
+(* what acceptance means, in words of the property: every reply is basic (origin = the
+   request's transmit field) or interleaved (origin = its receive field, which differs from
+   the transmit field), and an interleaved reply to a client names as origin the receive
+   stamp of an EARLIER reply to THAT client, serves a transmit stamp later than it, and
+   carries a different receive stamp itself.  Nothing recorded for another client is served. *)
+Theorem C06_listener_isolation : forall h,
+  C06_lsn_ok h = true ->
+  forall before o after, h = before ++ o :: after ->
+  (lsn_inter o = false -> l_org o = q_tx (l_q o)) /\
+  (lsn_inter o = true ->
+     l_org o = q_rx (l_q o) /\ q_rx (l_q o) <> q_tx (l_q o) /\ l_rx o <> q_org (l_q o) /\
+     exists o0, In o0 before /\ l_cl o0 = l_cl o /\ l_rx o0 = q_org (l_q o) /\ l_rx o0 < l_tx o).
+Proof. exact lsn_ok_split. Qed.
+Print Assumptions C06_listener_isolation.
+
+(* the listener-level oracle is not trivially true: client 2 naming the receive stamp of a reply
+   to client 1 and being served interleaved is rejected; the same request from client 1 is accepted *)
+Example C06_listener_oracle_rejects_cross_client :
+  let first := {| l_cl := 1; l_q := {| q_org := 0; q_rx := 5; q_tx := 6 |}; l_org := 6; l_rx := 100; l_tx := 110 |} in
+  let served cl := {| l_cl := cl; l_q := {| q_org := 100; q_rx := 110; q_tx := 7 |}; l_org := 110; l_rx := 200; l_tx := 120 |} in
+  C06_lsn_ok [first; served 2] = false /\ C06_lsn_ok [first; served 1] = true.
+Proof. split; reflexivity. Qed.
 
 (* the hypotheses are satisfiable: a concrete history in era 0 of the real configuration *)
 Example C06_nonvacuous :
